@@ -588,6 +588,9 @@ func Universe(tier string) []*Decl {
 			continue
 		}
 		for a := uint(0); a < 1<<nB; a++ {
+			if thorough && bitsSet(a) != 0 && bitsSet(a) != nB && bitsSet(a)%2 == 1 && a != 0b00111 && a != 0b00001 {
+				continue // thorough, n=5: none, all, the even-sized Async subsets, the first root(s)
+			}
 			for _, f := range fallibleChoices(nB, "none+all") {
 				add(Base(nB, e, a, f), "")
 			}
@@ -632,8 +635,8 @@ func Universe(tier string) []*Decl {
 				continue
 			}
 			for a := uint(0); a < 1<<n; a++ {
-				if n == 4 && bitsSet(a)%2 == 1 && a != 0b0111 {
-					continue // thorough, n=4: half of the Async subsets
+				if n == 4 && a != 0 && a != 0b1111 && a != 0b0111 && a != 0b0110 && a != 0b0011 {
+					continue // thorough, n=4: none, all, all-but-the-sink, the middle two, the first two
 				}
 				if !thorough && n == 3 && bitsSet(a) == 1 && a != 0b001 {
 					continue // quick: of the single-Async masks only "first root Async" (next to a synchronous root it runs in a goroutine)
@@ -892,6 +895,9 @@ func Universe(tier string) []*Decl {
 			}
 		}
 		for _, d := range append([]*Decl(nil), out...) {
+			if thorough && strings.Contains(d.Note, "wide") && d.Provs[0].Fallible {
+				continue // thorough: the wide block is large; its fallible members are not duplicated
+			}
 			if strings.Contains(d.Note, "wide") || strings.Contains(d.Note, "large") || (len(d.Provs) >= 5 && d.Prelude == "" && strings.Contains(d.Note, "base n=4")) {
 				if r := rev.Apply(d, 0); r != nil {
 					r.Note = d.Note
